@@ -50,7 +50,7 @@ type Truncate struct {
 
 // Call the function with the arguments provided.
 func (f *Truncate) Call(s *slip.Scope, args slip.List, depth int) slip.Object {
-	return truncate(s, f, args, depth)
+	return reduceValues(truncate(s, f, args, depth))
 }
 
 func truncate(s *slip.Scope, f slip.Object, args slip.List, depth int) slip.Values {
